@@ -5,14 +5,17 @@ d = sys.argv[1]
 checks = sys.argv[2:] or ['C%02d' % i for i in range(1, 21)]
 seeds = os.environ.get('SEEDS', '1').split()
 patch = os.path.abspath(os.path.join(d, 'patch.diff'))
-assert subprocess.run(['git', '-C', '/repo', 'status', '--porcelain', '--untracked-files=no'], capture_output=True, text=True).stdout.strip() == '', 'repo dirty'
-subprocess.check_call(['git', '-C', '/repo', 'apply', patch])
+# the change is applied in a scratch worktree (never in /repo itself: background runs may be using it)
+wt = '/tmp/sc_' + os.path.basename(os.path.normpath(d))
+subprocess.run(['git', '-C', '/repo', 'worktree', 'remove', '--force', wt], capture_output=True)
+subprocess.check_call(['git', '-C', '/repo', 'worktree', 'add', '-q', '--detach', wt, 'HEAD'])
+subprocess.check_call(['git', '-C', wt, 'apply', patch])
 res = {}
 try:
     procs = []
     for c in checks:
         for s in seeds:
-            env = dict(os.environ, VERIF_SEED=s)
+            env = dict(os.environ, VERIF_SEED=s, VERIF_REPO=wt)
             procs.append((c, s, subprocess.Popen(['/venv/bin/python', '-m', 'verifkit', 'check', c], cwd=VERIF, env=env, stdout=subprocess.PIPE, stderr=subprocess.STDOUT, text=True)))
     for c, s, p in procs:
         out, _ = p.communicate()
@@ -22,7 +25,7 @@ try:
         res.setdefault(c, []).append((s, p.returncode, detail[:1]))
         print(c, 'seed', s, 'rc', p.returncode, (detail[0][:200] if detail else lines[-1][:120]))
 finally:
-    subprocess.check_call(['git', '-C', '/repo', 'checkout', '--', '.'])
+    subprocess.run(['git', '-C', '/repo', 'worktree', 'remove', '--force', wt])
     subprocess.run(['git', '-C', VERIF, 'checkout', '--', 'evidence'])
 caught = sorted(c for c, v in res.items() if any(rc == 1 for _, rc, _ in v))
 print('CAUGHT BY:', caught)
